@@ -40,6 +40,8 @@ func TestJob(t *testing.T) {
 			err = runEngine(rec, sc)
 		case "api":
 			err = runAPI(rec, sc)
+		case "resume":
+			err = runResume(rec, sc)
 		default:
 			err = fmt.Errorf("unknown scenario kind %q", sc.Kind)
 		}
